@@ -582,6 +582,30 @@ func runC17(c *eng.Ctx) {
 			}
 		}
 		c.Check(bad == 0, "no-hidden-nondeterminism", nil, nil, "no random or clock source outside the time helpers", "")
+		// helpers called by the parser must not hand back a list whose order comes from map iteration
+		nCalls := 0
+		for _, fn := range p.FuncsWithPrefix("sql.") {
+			for _, d := range p.DeepSites(fn, func(p *eng.Prog, in ssa.Instruction) bool {
+				cl, ok := in.(ssa.CallInstruction)
+				if !ok {
+					return false
+				}
+				g := cl.Common().StaticCallee()
+				return g != nil && g.Blocks != nil && mapOrderedResult(g)
+			}, 1, false) {
+				leaf := d.Leaf().(ssa.CallInstruction)
+				g := leaf.Common().StaticCallee()
+				nCalls++
+				c.Check(false, fmt.Sprintf("map-ordered-helper:%s->%s", p.FuncKey(fn), p.FuncKey(g)), d.Top(), fn,
+					"the parser does not take a list from a helper that builds it by ranging over a map (the same text would parse to differently ordered statements)",
+					p.FuncKey(g)+" returns a slice filled inside a range over a map")
+			}
+		}
+		c.Check(nCalls == 0, "no-map-ordered-helper", nil, nil, "no parser function calls a map-order-dependent list builder", fmt.Sprintf("%d such calls", nCalls))
+		// positive control: the detector recognises the module's known map-ordered builder
+		if dd := p.Func("pkg/strutil.DeDupStringSlice"); dd != nil {
+			c.Check(mapOrderedResult(dd), "detector-control", nil, dd, "control: pkg/strutil.DeDupStringSlice is recognised as a map-ordered list builder", "the detector no longer recognises the known positive example")
+		}
 	})
 	_ = token.NoPos
 }
@@ -604,6 +628,88 @@ func isAnyLoopCond(cond ssa.Value) bool {
 	}
 	if p2, ok := bo.X.(*ssa.Phi); ok && p2.Comment == "rangeindex" {
 		return true
+	}
+	return false
+}
+
+// mapOrderedResult: fn returns a slice and fills some slice by append inside a range over a map with an element taken from that
+// iteration (the order of the result is the map's random iteration order), without sorting it afterwards.
+func mapOrderedResult(fn *ssa.Function) bool {
+	res := fn.Signature.Results()
+	slice := false
+	for i := 0; i < res.Len(); i++ {
+		if _, ok := res.At(i).Type().Underlying().(*types.Slice); ok {
+			slice = true
+		}
+	}
+	if !slice {
+		return false
+	}
+	var ranges []*ssa.Range
+	sorted := false
+	for _, b := range fn.Blocks {
+		for _, in := range b.Instrs {
+			if r, ok := in.(*ssa.Range); ok {
+				if _, isMap := r.X.Type().Underlying().(*types.Map); isMap {
+					ranges = append(ranges, r)
+				}
+			}
+			if cl, ok := in.(ssa.CallInstruction); ok {
+				if g := cl.Common().StaticCallee(); g != nil && g.Pkg != nil && (g.Pkg.Pkg.Path() == "sort" || g.Pkg.Pkg.Path() == "slices") {
+					sorted = true
+				}
+			}
+		}
+	}
+	if len(ranges) == 0 || sorted {
+		return false
+	}
+	fromIter := func(v ssa.Value) bool {
+		return eng.DependsOn(v, func(x ssa.Value) bool {
+			n, ok := x.(*ssa.Next)
+			if !ok {
+				return false
+			}
+			for _, r := range ranges {
+				if n.Iter == ssa.Value(r) {
+					return true
+				}
+			}
+			return false
+		})
+	}
+	for _, b := range fn.Blocks {
+		for _, in := range b.Instrs {
+			if st, ok := in.(*ssa.Store); ok {
+				if ia, isI := st.Addr.(*ssa.IndexAddr); isI && fromIter(st.Val) {
+					if _, isS := ia.X.Type().Underlying().(*types.Slice); isS {
+						return true // dst[idx] = k inside `for k := range m`
+					}
+				}
+			}
+			cl, ok := in.(*ssa.Call)
+			if !ok {
+				continue
+			}
+			bi, isB := cl.Common().Value.(*ssa.Builtin)
+			if !isB || bi.Name() != "append" || len(cl.Common().Args) < 2 {
+				continue
+			}
+			if eng.DependsOn(cl.Common().Args[1], func(x ssa.Value) bool {
+				n, ok := x.(*ssa.Next)
+				if !ok {
+					return false
+				}
+				for _, r := range ranges {
+					if n.Iter == ssa.Value(r) {
+						return true
+					}
+				}
+				return false
+			}) {
+				return true
+			}
+		}
 	}
 	return false
 }
